@@ -78,13 +78,64 @@ pub fn rss_cap_gib() -> f64 {
     std::env::var("VERIF_RSS_CAP_GB").ok().and_then(|v| v.parse().ok()).unwrap_or(30.0)
 }
 
-/// Wall-clock watchdog: a check that is still running after the limit is a machinery failure, not a verdict.
-pub fn install_watchdog(thorough: bool) {
+/// The first few distinct violations any worker recorded, kept process-wide so that the watchdog can still report them when a
+/// broken subject makes the exploration itself crawl (a subject whose cost grows with every refused input, say).
+pub static EARLY_VIOLATIONS: Mutex<Vec<(String, String, Value)>> = Mutex::new(Vec::new());
+
+fn note_early(key: &str, detail: &str, replay: &Value) {
+    if let Ok(mut v) = EARLY_VIOLATIONS.try_lock() {
+        if v.len() < 12 && !v.iter().any(|x| x.0 == key) {
+            v.push((key.to_string(), detail.to_string(), replay.clone()));
+        }
+    }
+}
+
+/// Wall-clock watchdog. A check that is still running after the limit is a machinery failure, not a verdict - unless violations
+/// (other than listed known findings) have already been demonstrated: a counterexample found is a counterexample whether or not
+/// the exploration around it was completed, so the run then ends as a violation (also after a shorter, "soft" limit: the only
+/// thing more time could add is more findings).
+pub fn install_watchdog(thorough: bool, property: &str) {
     let limit = std::env::var("VERIF_WALL_CAP_S").ok().and_then(|v| v.parse::<u64>().ok()).unwrap_or(if thorough { 3 * 3600 } else { 1200 });
+    let soft = if thorough { 1800 } else { 150 };
+    let property = property.to_string();
     std::thread::spawn(move || {
-        std::thread::sleep(std::time::Duration::from_secs(limit));
-        println!("MACHINERY-ERROR wall-clock cap of {} s reached (VERIF_WALL_CAP_S to change)", limit);
-        std::process::exit(2);
+        let start = Instant::now();
+        loop {
+            std::thread::sleep(std::time::Duration::from_secs(5));
+            let el = start.elapsed().as_secs();
+            if el < soft.min(limit) {
+                continue;
+            }
+            let early: Vec<(String, String, Value)> = EARLY_VIOLATIONS.lock().map(|v| v.clone()).unwrap_or_default();
+            let known = load_known();
+            let unlisted: Vec<&(String, String, Value)> = early
+                .iter()
+                .filter(|(k, _, _)| {
+                    !known.iter().any(|f| {
+                        f.get("property").and_then(|x| x.as_str()) == Some(property.as_str())
+                            && f.get("key").and_then(|x| x.as_str()) == Some(k.as_str())
+                            && f.get("status").and_then(|x| x.as_str()) == Some("known")
+                    })
+                })
+                .collect();
+            if !unlisted.is_empty() {
+                let _ = std::fs::create_dir_all(format!("{}/replays", verif_dir()));
+                println!("exploration stopped after {} s: violations had been found and the run was still going (a broken subject can make every further step slower); reporting what was found", el);
+                for (key, detail, replay) in unlisted {
+                    let digest = format!("{:016x}", hash64(key));
+                    let path = format!("{}/replays/{}-{}.json", verif_dir(), property, digest);
+                    let body = json!({"property": property, "finding_key": key, "detail": detail, "replay": replay, "note": "reported by the watchdog before the exploration finished"});
+                    let _ = std::fs::write(&path, serde_json::to_string_pretty(&body).unwrap());
+                    println!("  violation key={} detail={}", key, detail);
+                    println!("VIOLATION property={} replay={}", property, path);
+                }
+                std::process::exit(1);
+            }
+            if el >= limit {
+                println!("MACHINERY-ERROR wall-clock cap of {} s reached (VERIF_WALL_CAP_S to change)", limit);
+                std::process::exit(2);
+            }
+        }
     });
 }
 
@@ -205,6 +256,9 @@ impl Report {
                 }
             }
             None => {
+                let d: String = detail.into();
+                note_early(&key, &d, &replay);
+                let detail = d;
                 self.violations.insert(
                     key.clone(),
                     (
